@@ -1550,13 +1550,18 @@ class Parameter(_ParameterBase):
             syncing = name in obj._param__private.syncing
             ref, deps, val, is_async = obj.param._resolve_ref(self, val)
             refs = obj._param__private.refs
+            resolved = not (is_async or val is Undefined)
+            relinks = ref is not None or (name in refs and not syncing)
+            if resolved and relinks:
+                # The assignment starts or ends a link: reject an invalid
+                # value before the links of the object are touched
+                self._validate(val)
+                self._validate_settable(obj, val)
             if ref is not None:
                 self.owner.param._update_ref(name, ref)
             elif name in refs and not syncing:
-                del refs[name]
-                if name in obj._param__private.async_refs:
-                    obj._param__private.async_refs.pop(name).cancel()
-            if is_async or val is Undefined:
+                self.owner.param._update_ref(name)
+            if not resolved:
                 return
 
         # Deprecated Number set_hook called here to avoid duplicating setter
@@ -1632,6 +1637,14 @@ class Parameter(_ParameterBase):
             # already ran must not wait for some unrelated later assignment
             if not obj.param._BATCH_WATCH:
                 obj.param._batch_call_watchers()
+
+    def _validate_settable(self, obj, val):
+        """Raise if this read-only or constant Parameter cannot be set to val on the initialized instance obj."""
+        if self.readonly:
+            raise TypeError("Read-only parameter '%s' cannot be modified" % self.name)
+        if self.constant and obj._param__private.initialized:
+            if val is not obj._param__private.values.get(self.name, self.default):
+                raise TypeError("Constant parameter '%s' cannot be modified" % self.name)
 
     def _validate_value(self, value, allow_None):
         """Validate the parameter value against constraints.
@@ -2150,7 +2163,8 @@ class Parameters:
                 owner.param._watch(self_._sync_refs, list(set(pnames)), precedence=-1)
             ))
 
-    def _update_ref(self_, name, ref):
+    def _update_ref(self_, name, ref=Undefined):
+        """Link parameter name to ref, or end its link if no ref is given."""
         param_private = self_.self._param__private
         if name in param_private.async_refs:
             param_private.async_refs.pop(name).cancel()
@@ -2158,8 +2172,15 @@ class Parameters:
             dep_obj = watcher.cls if watcher.inst is None else watcher.inst
             dep_obj.param.unwatch(watcher)
         self_.self._param__private.ref_watchers = []
-        refs = dict(self_.self._param__private.refs, **{name: ref})
-        deps = {name: resolve_ref(ref) for name, ref in refs.items()}
+        refs = dict(self_.self._param__private.refs)
+        if ref is Undefined:
+            refs.pop(name, None)
+        else:
+            refs[name] = ref
+        deps = {
+            pname: resolve_ref(pref, recursive=self_[pname].nested_refs)
+            for pname, pref in refs.items()
+        }
         self_._setup_refs(deps)
         self_.self._param__private.refs = refs
 
